@@ -25,7 +25,7 @@ void curve_stub(c) Curve* c; {      /* contract of every Curve construction meth
 #endif
 int main(void) {
   Path path = {0}; double* sp = malloc(sizeof(double) * 2 * N0); for (int i = 0; i < 2 * N0; i++) sp[i] = (double)nd_range(-100, 100);
-  path.f0.f0.f0 = N0; path.f0.f0.f1 = N0; path.f0.f0.f2 = (void*)sp;
+  path.f0.f0.f0 = N0; path.f0.f0.f1 = N0; path.f0.f0.f2 = (void*)sp; path.f0.f1 = 0.01;       /* curve tolerance (used by the real samplers in REAL mode) */
   Elem* el = calloc(NE, sizeof(Elem)); double last_w[NE], last_o[NE], ow[NE][N0], oo[NE][N0];
   for (int e = 0; e < NE; e++) { double* wo = malloc(sizeof(double) * 2 * N0); for (int i = 0; i < N0; i++) { wo[2 * i] = (double)nd_range(0, 50); wo[2 * i + 1] = (double)nd_range(-50, 50); ow[e][i] = wo[2 * i]; oo[e][i] = wo[2 * i + 1]; }
     el[e].f1.f0 = N0; el[e].f1.f1 = N0; el[e].f1.f2 = (void*)wo; last_w[e] = wo[2 * (N0 - 1)]; last_o[e] = wo[2 * (N0 - 1) + 1]; }
@@ -62,12 +62,18 @@ int main(void) {
 #ifndef REAL
   CHECK(stub_calls == 1, "the wrapper forwards to exactly one curve construction method");
 #endif
+#ifdef REAL
+  int KK = (int)path.f0.f0.f1 - N0;          /* replay against the real curve methods: they decide how many points are appended */
+  CHECK(KK >= 0, "the spine only grows");
+#else
+  int KK = K;
   CHECK(path.f0.f0.f1 == N0 + K, "spine grew by the appended points");
+#endif
   for (int e = 0; e < NE; e++) { Elem* x = &path.f1[e]; double* wo = (double*)x->f1.f2;
     CHECK(x->f1.f1 == path.f0.f0.f1, "one width/offset entry per spine point for every element");
-    if (K > 0 && x->f1.f1 == N0 + K) {
-      CHECK(wo[2 * (N0 + K - 1)] == (GIVEW ? 0.5 * w[e] : last_w[e]), "last half-width = requested width / 2, or the previous one when none is given");
-      CHECK(wo[2 * (N0 + K - 1) + 1] == (GIVEO ? o[e] : last_o[e]), "last offset = requested offset, or the previous one"); }
+    if (KK > 0 && x->f1.f1 == (uint64_t)(N0 + KK)) {
+      CHECK(wo[2 * (N0 + KK - 1)] == (GIVEW ? 0.5 * w[e] : last_w[e]), "last half-width = requested width / 2, or the previous one when none is given");
+      CHECK(wo[2 * (N0 + KK - 1) + 1] == (GIVEO ? o[e] : last_o[e]), "last offset = requested offset, or the previous one"); }
     for (int i = 0; i < N0; i++) CHECK(wo[2 * i] == ow[e][i] && wo[2 * i + 1] == oo[e][i], "earlier entries kept"); }
   WITNESS_POINT();
   return 0;
